@@ -89,7 +89,9 @@ impl Route {
     pub fn next(&self) -> u8 {
         let p = self.pos.get();
         self.pos.set(p + 1);
-        self.bytes.get(p).copied().unwrap_or(0)
+        // a route made of loose-iterator bytes only stays loose for every further emplacer
+        let sticky = !self.bytes.is_empty() && self.bytes.iter().all(|b| *b == 0xF5);
+        self.bytes.get(p).copied().unwrap_or(if sticky { 0xF5 } else { 0 })
     }
 }
 
@@ -544,10 +546,11 @@ impl<T: SizedShape, L: LenShape> Shape for FlatVec<T, L> {
     unsafe fn emplace_val<'a>(v: &Value, bytes: &'a mut [u8], route: &Route) -> Result<&'a mut Self, Error> {
         let xs = v.items();
         let r = route.next();
+        let special = r == 0xF3 || r == 0xF5 || r == 0xF7;
         if xs.is_empty() && r % 3 == 1 {
             return vec::Empty.emplace_unchecked(bytes);
         }
-        if r % 6 == 5 && xs.len() <= 4 {
+        if !special && r % 6 == 5 && xs.len() <= 4 {
             // the documented literal syntax (flat_vec! expands to vec::FromArray)
             let x = |i: usize| T::from_val(&xs[i]);
             return match xs.len() {
@@ -559,7 +562,7 @@ impl<T: SizedShape, L: LenShape> Shape for FlatVec<T, L> {
             };
         }
         // (256 / 257 elements: one more than a u8 length type can count, with enough bytes for all of them)
-        if r % 3 == 2 && (xs.len() <= 6 || xs.len() == 256 || xs.len() == 257) {
+        if !special && r % 3 == 2 && (xs.len() <= 6 || xs.len() == 256 || xs.len() == 257) {
             macro_rules! arr {
                 ($($n:literal),*) => {
                     match xs.len() {
